@@ -1,7 +1,12 @@
 //! Verification facade (feature `verif-hooks`) over the crate-private inbound packet filter.
 
 use super::filter::{Filter, FilterConfig};
-use crate::{node_info::NodeAddress, packet::Packet, socket::RateLimiter, ProtocolIdentity};
+use crate::{
+    node_info::NodeAddress,
+    packet::{Packet, PacketHeader, PacketKind},
+    socket::RateLimiter,
+    ProtocolIdentity,
+};
 use enr::NodeId;
 use std::{net::SocketAddr, time::Duration};
 
@@ -9,6 +14,7 @@ use std::{net::SocketAddr, time::Duration};
 pub struct FilterFacade {
     filter: Filter,
     dummy: Packet,
+    dummy_handshake: Packet,
 }
 
 impl FilterFacade {
@@ -29,6 +35,20 @@ impl FilterFacade {
             filter: Filter::new(config, ban_duration),
             dummy: Packet::new_random(&NodeId::new(&[0u8; 32]), ProtocolIdentity::default())
                 .expect("random packet"),
+            dummy_handshake: Packet {
+                iv: 0,
+                header: PacketHeader {
+                    message_nonce: [0u8; 12],
+                    protocol_identity: ProtocolIdentity::default(),
+                    kind: PacketKind::Handshake {
+                        src_id: NodeId::new(&[0u8; 32]),
+                        id_nonce_sig: vec![0u8; 64],
+                        ephem_pubkey: vec![0u8; 33],
+                        enr_record: None,
+                    },
+                },
+                message: Vec::new(),
+            },
         }
     }
 
@@ -44,6 +64,15 @@ impl FilterFacade {
             node_id,
         };
         self.filter.final_pass(&node_address, &self.dummy)
+    }
+
+    /// Node stage for a datagram of handshake kind (the other kind that carries a node id).
+    pub fn final_pass_handshake(&mut self, node_id: NodeId, socket_addr: SocketAddr) -> bool {
+        let node_address = NodeAddress {
+            socket_addr,
+            node_id,
+        };
+        self.filter.final_pass(&node_address, &self.dummy_handshake)
     }
 
     /// The periodic prune tick of the receive task.
